@@ -684,6 +684,18 @@ func (o *c09Op) touches(d *c09Desc) bool {
 	return o.op == c09OpAddBalance && zero && a.kind == c09Clean && a.isEmpty
 }
 
+// touchesDirty: the same touch path on an empty, not yet touched object that is
+// already in stateObjectsDirty but still owns its onDirty callback (the shape of
+// every dirty object of a Copy, and of an object after a reverted
+// CreateAccount): touch() records prevDirty = (onDirty == nil) = false, so the
+// undo removes a dirty mark that predates the snapshot.
+func (o *c09Op) touchesDirty(d *c09Desc) bool {
+	a := &d.accts[o.ai]
+	zero := o.amount.Sign() == 0
+	fresh := !a.touched
+	return o.op == c09OpAddBalance && zero && a.kind == c09Dirty && a.keepsCB && fresh && a.isEmpty
+}
+
 // marksDirty: o puts a clean account into stateObjectsDirty through a path
 // whose undo entry does not take it out again (every account mutation except
 // the touch path and the zero-amount no-ops).
@@ -775,7 +787,7 @@ func c09RevertScenario(xKinds, yKinds []int, nested bool) *c09Run {
 		c09AssertSameObs(mid, c09Observe(a, r.nslots), r.nslots, "after inner revert")
 		// op2 ran on the state after op1: it meets the described pre-state of its
 		// account unless op1 modified that very account
-		modified := op1.marksDirty(d) || op1.touches(d)
+		modified := op1.marksDirty(d) || op1.touches(d) || op1.touchesDirty(d)
 		if op2.ai != op1.ai || !modified {
 			r.ops = append(r.ops, op2)
 		}
@@ -794,7 +806,7 @@ func c09RevertScenario(xKinds, yKinds []int, nested bool) *c09Run {
 
 // anyOp reports whether a known-finding predicate holds for one of the
 // reverted operations and returns the index of the account concerned.
-func (r *c09Run) knownTargets() (dirty [2]bool, ripemd [2]bool, touch [2]bool) {
+func (r *c09Run) knownTargets() (dirty [2]bool, ripemd [2]bool, touch [2]bool, touchDirty [2]bool) {
 	for _, o := range r.ops {
 		if !o.onAccount() {
 			continue
@@ -808,6 +820,9 @@ func (r *c09Run) knownTargets() (dirty [2]bool, ripemd [2]bool, touch [2]bool) {
 			} else {
 				touch[o.ai] = true
 			}
+		}
+		if o.touchesDirty(r.d) && o.addr != ripemd_() {
+			touchDirty[o.ai] = true
 		}
 	}
 	return
@@ -848,7 +863,7 @@ func VerifC09_RevertThenWrite() {
 
 func c09RevertCheck(r *c09Run, cont *c09Op) {
 	a, b := r.a, r.b
-	dirty, ripemd, touch := r.knownTargets()
+	dirty, ripemd, touch, touchDirty := r.knownTargets()
 
 	// (1) [one more operation, then] Finalise writes what it would have written from the pre-state
 	if cont != nil {
@@ -864,14 +879,14 @@ func c09RevertCheck(r *c09Run, cont *c09Op) {
 			late = append(late, i)
 			continue
 		}
-		if cont != nil && touch[i] {
+		if (cont != nil && touch[i]) || touchDirty[i] {
 			late = append(late, i)
 			continue
 		}
 		c09AssertSameContentAt(a, b, i, "Finalise after revert vs Finalise of the pre-state")
 	}
 	for i := range c09Addrs {
-		if (r.deleteEmpty && r.d.accts[i].isEmpty && (dirty[i] || ripemd[i])) || (cont != nil && touch[i]) {
+		if (r.deleteEmpty && r.d.accts[i].isEmpty && (dirty[i] || ripemd[i])) || (cont != nil && touch[i]) || touchDirty[i] {
 			continue
 		}
 		c09AssertMirrors(a, i, r.mslots, "after Finalise")
@@ -883,9 +898,10 @@ func c09RevertCheck(r *c09Run, cont *c09Op) {
 		switch {
 		case ripemd[i]:
 			vs.Known(c09KnownRipemd, true)
-		case touch[i]:
+		case touch[i], touchDirty[i]:
 			// Known finding: after the undo of a touch the object has neither a dirty
-			// mark nor its onDirty callback, so the operation that follows is not written.
+			// mark nor its onDirty callback, so the operation that follows is not
+			// written - nor is the pending content of an object that was dirty before.
 			vs.Known(c09KnownTouch, true)
 		default:
 			vs.Known(c09KnownDirty, true)
@@ -897,12 +913,12 @@ func c09RevertCheck(r *c09Run, cont *c09Op) {
 	// (2) lost-write protection.  Known finding: the undo of a touch removes the
 	// dirty mark but does not give the object its onDirty callback back.
 	for i := range c09Addrs {
-		if !touch[i] {
+		if !touch[i] && !touchDirty[i] {
 			c09AssertCallbacks(a, i, "after revert")
 		}
 	}
 	for i := range c09Addrs {
-		if touch[i] {
+		if touch[i] || touchDirty[i] {
 			vs.Known(c09KnownTouch, true)
 			c09AssertCallbacks(a, i, "after revert")
 		}
